@@ -890,6 +890,33 @@ func (w *World) findFunction(key string) *ssa.Function {
 }
 
 func (w *World) verifyFunction(fc *FuncContract) (res *FnResult) {
+	if fc.SplitParam == "" {
+		return w.verifyFunctionWith(fc, nil, "")
+	}
+	// complete enumeration of a small integer parameter: the body is executed
+	// once per value, so table look-ups fold to constants
+	var all *FnResult
+	for v := fc.SplitLo; v <= fc.SplitHi; v++ {
+		val := uint64(v)
+		r := w.verifyFunctionWith(fc, &val, fmt.Sprintf("[%s=%d]", fc.SplitParam, v))
+		if all == nil {
+			all = r
+		} else {
+			// each case has its own assumption list: keep obligations self-contained
+			for _, o := range r.Obls {
+				o.caseAssumes = r.Assumes
+			}
+			all.Obls = append(all.Obls, r.Obls...)
+			all.Trivial += r.Trivial
+			if r.Err != "" && all.Err == "" {
+				all.Err = r.Err
+			}
+		}
+	}
+	return all
+}
+
+func (w *World) verifyFunctionWith(fc *FuncContract, splitVal *uint64, tag string) (res *FnResult) {
 	res = &FnResult{Name: shortName(fc.Key), Key: fc.Key, Props: fc.Props, Trusted: fc.Trusted}
 	fn := w.findFunction(fc.Key)
 	if fn == nil {
@@ -926,11 +953,17 @@ func (w *World) verifyFunction(fc *FuncContract) (res *FnResult) {
 	args := make([]*Val, len(fn.Params))
 	for i, p := range fn.Params {
 		v := freshVal(p.Type(), "in."+p.Name())
+		if splitVal != nil && p.Name() == fc.SplitParam {
+			if wd, _, ok := isIntType(p.Type()); ok {
+				v = intVal(p.Type(), Const(wd, *splitVal))
+			}
+		}
 		args[i] = v
 		if inv := c.typeInvariant(st, v); !inv.IsTrue() {
 			c.assume(True, inv)
 		}
 	}
+	c.caseTag = tag
 	c.declareInputs(st, fn, args)
 	env := c.contractEnv(fn, st, args)
 	for _, r := range fc.Requires {
